@@ -86,7 +86,7 @@ def build(data):
         k = g.int(1, n - 1)
         T[k]["root"] = 0
         T[k]["shadow"] = True  # another copy with different content lives in root 1
-    case = {"templates": T, "files": files, "nroots": nroots, "missing": None}
+    case = {"templates": T, "files": files, "nroots": nroots, "missing": None, "strict": g.chance(35)}
     for i in range(n - 1, -1, -1):
         t = T[i]
         later = list(range(i + 1, n))
@@ -437,9 +437,9 @@ def check_case(case, ev=None):
                         fh.write(emit_template(t, shadow=True))
             for r in roots:
                 os.makedirs(r, exist_ok=True)
-            lookup = TemplateLookup(directories=roots)
+            lookup = TemplateLookup(directories=roots, strict_undefined=bool(case.get("strict")))
         else:
-            lookup = TemplateLookup()
+            lookup = TemplateLookup(strict_undefined=bool(case.get("strict")))
             for t in T:
                 lookup.put_string(t["uri"], srcs[t["uri"]])
         try:
@@ -459,6 +459,8 @@ def check_case(case, ev=None):
             k for k in ("import", "inline", "incargs", "inherit", "shadow", "module", "rel") if f[k]]
         if f["missing"]:
             labels.append("missing:" + f["missing"])
+        if case.get("strict"):
+            labels.append("strict_undefined")
         ev.case(key=case, nontrivial=bool(nt), labels=labels)
         if nt and len(shown) < 1500:
             ev.sample({"templates": srcs, "expected": exp}, "set")
